@@ -57,6 +57,10 @@ Fixpoint pv_eqb (a b : pv) {struct a} : bool :=
   | VEnum c x, VEnum d y => String.eqb c d && Z.eqb x y
   | VOpq c x, VOpq d y => cbor_eqb x y                  (* opaque leaves: by primitive (a dispatcher may return a subclass) *)
   | VAny x, VAny y => cbor_eqb x y
+  (* Value.__eq__ accepts an int: a field typed Union[int, Value] restores the bare-integer form to an int that compares
+     equal to the original Value (and __post_init__ of the owning class turns it back into a Value) *)
+  | VInt x, VOpq c p | VOpq c p, VInt x =>
+      String.eqb c "Value" && match as_int_opt p with Some y => Z.eqb x y | None => false end
   | _, _ => false
   end.
 
@@ -80,6 +84,7 @@ Definition opaque_heads (shape : string) (code : option Z) : list head :=
   else if String.eqb shape "map" then [HMap]
   else if String.eqb shape "tag259" then [HTag 259]
   else if String.eqb shape "tag" then [HAnyTag]
+  else if String.eqb shape "value" then [HList None; HInt]
   else if String.eqb shape "output" then [HList None; HMap]
   else if String.eqb shape "auxdata" then [HTag 259; HList None; HMap]
   else [HAnything].
